@@ -2,6 +2,7 @@
 //! See /verif/DESIGN.md. Exit codes: 0 held, 1 violation, 2 harness error.
 
 mod c04;
+mod c08;
 mod c16;
 mod cards;
 mod evalrun;
@@ -36,6 +37,7 @@ fn main() {
 
 fn real_main(args: Vec<String>) -> i32 {
     match args[1].as_str() {
+        "c08-child" => c08::child_main(),
         "run" => {
             if args.len() < 4 {
                 usage();
@@ -47,6 +49,7 @@ fn real_main(args: Vec<String>) -> i32 {
             println!("VERIF_SEED={}", util::verif_seed());
             match args[2].as_str() {
                 "C04" => c04::run(tier),
+                "C08" => c08::run(tier),
                 "C16" => c16::run(tier),
                 _ => usage(),
             }
@@ -66,6 +69,7 @@ fn real_main(args: Vec<String>) -> i32 {
             let want = v["key"].as_str().unwrap_or("").to_string();
             let got = match prop.as_str() {
                 "C04" => c04::replay(&v),
+                "C08" => c08::replay(&v),
                 "C16" => c16::replay(&v),
                 _ => {
                     eprintln!("HARNESS ERROR: unknown property in replay file");
